@@ -34,7 +34,7 @@ std::string paramNameOf(long long n) {
     }
     return poolName(2000 + n, 20);
 }
-std::string pointNameOf(long long n) { return poolName(3000 + (n < 0 ? -n : n), 20); }
+std::string pointNameOf(long long n) { if (n < 0) n = -n; if (n == 33) return std::string(); return poolName(3000 + n, 20); }     // index 33: the unnamed point (a blank label)
 std::string channelNameOf(long long n) { return poolName(4000 + (n < 0 ? -n : n), 20); }
 
 Outcome classifyCurrentException() {
